@@ -2,6 +2,7 @@ package main
 
 import (
 	"fmt"
+	"go/token"
 	"sort"
 	"strings"
 
@@ -207,6 +208,16 @@ func (eg *EventGraph) summ(depth int) *Summ {
 	s.NilFns = eg.AlwaysNil
 	// never inline anything that may emit: emits must stay visible as call events
 	s.InlineFilter = func(fn *ssa.Function) bool { return !eg.MayEmit[fn] }
+	// package-private helpers that do not emit are analysed where they are used (also when they
+	// contain loops): splitting a handler body into helpers must not hide its error exits
+	s.HelperInline = func(fn *ssa.Function) bool {
+		if eg.MayEmit[fn] || fn.Pkg == nil || shortPkg(fn.Pkg.Pkg.Path()) != "pokerface" || fn.Parent() != nil || token.IsExported(fn.Name()) {
+			return false
+		}
+		// only helpers with an error result matter for the event flow (their failure exits)
+		res := fn.Signature.Results()
+		return res.Len() >= 1 && typeShort(res.At(res.Len()-1).Type()) == "error" && !eg.AlwaysNil[fn]
+	}
 	return s
 }
 
@@ -228,7 +239,7 @@ func (eg *EventGraph) Outcomes(fn *ssa.Function) []outcome {
 	eg.outcomes[fn] = nil // recursion guard
 	c := eg.c
 	c.touch(fnKey(fn))
-	s := eg.summ(1)
+	s := eg.summ(2)
 	paths, cut := s.Function(fn)
 	if cut != "" {
 		eg.problems = append(eg.problems, fnKey(fn)+": summary cut: "+cut)
